@@ -291,8 +291,8 @@ theorem good_add_detail (k : GKind) (hk : k = .action ∨ k = .actionNoAck) (a :
     ∃ o', o.edit (.detail d) = .ok (((det ++ d).length : Nat), o') ∧ Good k a o' [] (det ++ d) := by
   obtain ⟨hkind, wf, henc, hlen⟩ := g
   obtain ⟨hd1, hd2, hd3⟩ := wf.det
-  have hmod : (o.detailLen + d.length) % 256 = (det ++ d).length := by
-    rw [hd2, List.length_append]; exact Nat.mod_eq_of_lt (by omega)
+  have hmod : o.detailLen + d.length = (det ++ d).length := by
+    rw [hd2, List.length_append]
   have htake : o.detail.take o.detailLen = det := by rw [hd1, hd2, List.take_length]
   refine ⟨{ o with detail := det ++ d, detailLen := (det ++ d).length }, ?_, ?_⟩
   · simp only [GObj.edit, hmod, htake]
@@ -303,7 +303,8 @@ theorem good_add_detail (k : GKind) (hk : k = .action ∨ k = .actionNoAck) (a :
       congr 2
       cases o
       simp_all
-    · simp [hz]
+    · have hfit : ¬ (255 - det.length < d.length) := by omega
+      simp [hz, hd2, hfit]
   · have hkk : o.kind = .action ∨ o.kind = .actionNoAck := by rw [hkind]; exact hk
     refine ⟨hkind, ⟨wf.fc, wf.inv, wf.parse, ⟨rfl, rfl, by rw [List.length_append]; exact hd⟩, wf.noTags, fun h => by rcases hkk with h1 | h1 <;> simp_all⟩, ?_, ?_⟩
     · have e0 : o.encoding = .ok (o.header ++ o.fixed ++ det) := by
